@@ -712,6 +712,20 @@ def _hugr_state(h):
         spec = _op_spec(op)
         facts = _facts(op) if isinstance(op, (ops.Custom, ops.ExtOp)) else None
         nodes.append([n.idx, spec, facts])
+    # read-only observers of every operation (display name, equality, printing, rendering) run BEFORE the document is
+    # taken: looking at a resolved operation must not change what is written (seeded change C11-13: a requirement list
+    # shared between the replaced and the resolved operation, extended in place by the first `name()` / `==`)
+    for n in h:
+        op = h[n].op
+        for look in (lambda: op.name(), lambda: op == op, lambda: str(op), lambda: repr(op)):
+            try:
+                look()
+            except Exception:  # noqa: BLE001
+                pass
+    try:
+        h.render_dot()
+    except Exception:  # noqa: BLE001
+        pass
     try:
         doc = json.loads(h.to_json())
     except Exception as e:  # noqa: BLE001
